@@ -1,8 +1,26 @@
-(* C06 — pins (theorems in Proofs/C06Main.v to follow). *)
-From Coq Require Import String Ascii ZArith List Bool.
-From RV Require Import Base.Val Gen.Common Model.Mapping.
+(* C06 — 3D-to-2D mapping: pins and theorems about the conflict-resolution loop of the model (Model/Mapping.v), which the
+   correspondence check ties to tertiary.Mapping2D3D.  Only `exact`. *)
+From Coq Require Import String Ascii ZArith List Bool Arith.
+From RV Require Import Base.Val Gen.Common Model.Mapping Proofs.C06Main.
 Import ListNotations.
 
 Lemma C06_pin_canonical : saenger_canonical = ["XIX"; "XX"; "XXVIII"]%string /\ lw_reverse_perm = [0; 2; 1].
 Proof. split; reflexivity. Qed.
 Print Assumptions C06_pin_canonical.
+
+(* the loop ends within |canonical| removals: the fuel the model passes is always enough (no OutOfFuel for any input) *)
+Theorem C06_resolution_terminates : forall rs fuel can, length can <= fuel -> exists l, resolve rs fuel can = Ok l.
+Proof. exact resolve_terminates. Qed.
+Print Assumptions C06_resolution_terminates.
+
+(* every kept pair is one of the canonical input pairs, and no residue is left touched by two distinct pairs *)
+Theorem C06_subset_and_conflict_free : forall rs fuel can l, resolve rs fuel can = Ok l ->
+    (forall x, In x l -> In x can) /\ conflicted l = None.
+Proof. exact resolve_spec. Qed.
+Print Assumptions C06_subset_and_conflict_free.
+
+(* a canonical pair that shares no residue with any other pair is kept *)
+Theorem C06_keeps_unconflicted : forall rs fuel can l p,
+    resolve rs fuel can = Ok l -> In p can -> unconflicted can p -> In p l.
+Proof. exact resolve_keeps_unconflicted. Qed.
+Print Assumptions C06_keeps_unconflicted.
